@@ -146,12 +146,54 @@ def boundary_cases(rng):
     return out
 
 
+
+def same_name_conditions(out):
+    """condition expressions that READ the same but are different predicates (the description does not parenthesise), used on the
+    same inner type in one process, in both orders of first use: each restricts by its own predicate"""
+    import typing as t
+    import pane
+    from pane.annotations import Condition, Positive, Negative, val_range
+    n = 0
+
+    def families():
+        a, b = Positive, val_range(max=5)
+        yield ('~(positive & v<=5)', lambda: ~(Positive & val_range(max=5)), lambda v: not (v > 0 and v <= 5),
+               '~positive & v<=5', lambda: ~Positive & val_range(max=5), lambda v: (not v > 0) and v <= 5, [6, 100, 0, -2, 3])
+        yield ('positive | (v>=10 & v<=20)', lambda: Positive | (val_range(min=10) & val_range(max=20)), lambda v: v > 0 or (10 <= v <= 20),
+               '(positive | v>=10) & v<=20', lambda: (Positive | val_range(min=10)) & val_range(max=20), lambda v: (v > 0 or v >= 10) and v <= 20, [25, 15, 5, 0, -3])
+        yield ('user "small" = v < 3', lambda: Condition(lambda v: v < 3, 'small'), lambda v: v < 3,
+               'user "small" = v < 30', lambda: Condition(lambda v: v < 30, 'small'), lambda v: v < 30, [1, 10, 50])
+        yield ('~(negative | v>=7)', lambda: ~(Negative | val_range(min=7)), lambda v: not (v < 0 or v >= 7),
+               '~negative | v>=7', lambda: ~Negative | val_range(min=7), lambda v: (not v < 0) or v >= 7, [-1, 3, 8])
+    for order in (0, 1):
+        for la, mka, pa, lb, mkb, pb, vals in families():
+            pairs = [(la, mka, pa), (lb, mkb, pb)]
+            if order:
+                pairs.reverse()
+            built = [(lab, t.Annotated[int, mk()], pred) for lab, mk, pred in pairs]      # both types exist before either is used
+            for lab, ty, pred in built:
+                for wrap, wv in ((lambda T: T, lambda v: v), (lambda T: t.List[T], lambda v: [v])):
+                    for v in vals:
+                        n += 1
+                        try:
+                            pane.from_data(wv(v), wrap(ty))
+                            ok = True
+                        except pane.ConvertError:
+                            ok = False
+                        if ok != bool(pred(v)):
+                            out.violation('C13:same-name-conditions', f'{lab} on {v!r}: {"accepted" if ok else "rejected"}, its predicate says '
+                                          f'{"accept" if pred(v) else "reject"} (another condition with the same description {pairs[0][0]!r} / {pairs[1][0]!r} is in use)',
+                                          {'condition': lab, 'value': repr(v), 'order': order})
+    return n
+
+
 def run(ctx, out):
     out.rule = ('(a) exhaustive boundary stream: every stock condition (sign conditions, finite, val_range, len_range, empty / '
                 'non-empty) x inner types x values at boundary -1/0/+1 (ints, floats, inf, nan, bool, 10**400), combinators '
                 'with raising members; (b) random condition expressions (and/or/not/all/any, raising and constant user '
                 'predicates) x inner types x values. The verdict is compared with an independent Boolean reading of the '
                 'condition term. Non-trivial = non-leaf type; distinct by (type term, value).')
+    out.evaluations += same_name_conditions(out)
     convprop.run(ctx, out, PROP, monitor, cfg={'weights': {'cond': 9.0}}, extra_cases=boundary_cases)
 
 
